@@ -196,7 +196,16 @@ def run(tier):
         seen.add(p.sig)
         progs.append(p)
     out = common.Outcome(PID)
-    extra = e3_extras.summary(e3_extras.safe(e3_extras.c10_transparent, out))
+    o1 = e3_extras.safe(e3_extras.c10_transparent, out)
+    # the emitted builder chain for every configuration of 0..3 fields (holds for every formatter state, the alternate flag included)
+    o2 = e3_extras.safe(e3_extras.c10_chain, out)
+    extra = e3_extras.summary(o1)
+    extra.update({"e3_obligations": o1.total + o2.total, "e3_discharged": o1.discharged + o2.discharged, "e3_solver_time_s": round(o1.solver_time + o2.solver_time, 2),
+                  "e3_chain_obligations": o2.total, "e3_chain_discharged": o2.discharged,
+                  "e3_chain_rule": "build_debug_expr, 0..3 fields, ignore / transparent flags and named-ness symbolic: the tokens appended to the returned stream are exactly "
+                                   "`f.debug_struct|debug_tuple(name)` `.field([name,] &expr)` per non-ignored field in order `.finish()`, or `::core::fmt::Debug::fmt(expr, f)` for one "
+                                   "transparent field - the call sequence the standard derive's helper functions perform; trusted: core's DebugStruct / DebugTuple"})
+    extra["e3_functions"] = dict(o1.functions, **o2.functions)
     # `{:#?}` on shapes with fields does not finish under CBMC (PadAdapter). The same programs are run natively on sampled inputs instead:
     # sampling, not a solver verdict - reported separately in the evidence
     alt = []
